@@ -253,6 +253,16 @@ func genHubCase(rr *h.Rand, o *gen.Oracle, focus string) hubCase {
 		}
 	}
 
+	if (focus == "events" || focus == "api") && cs.Cfg.Bolt && cs.Cfg.Subscriptions && rr.Chance(1, 6) {
+		// a registration that fails half-way: an undecodable entry in the history makes the replay, and so
+		// AddSubscriber, fail after the subscriber was announced (not modelled: the comparison with the model
+		// stops at the corruption, the oracles go on)
+		cs.Ops = append(cs.Ops, hubOp{Op: "pub", Form: url.Values{"topic": {"https://example.com/x"}, "id": {"before-corruption"}, "data": {"d"}}, Claims: claimsJSON("publish", []string{"*"}, "")},
+			hubOp{Op: "corrupt"},
+			hubOp{Op: "sub", Label: 900, Topics: []string{h.Pick(rr, p.sels), h.Pick(rr, p.sels)}, LeidQ: "earliest", Claims: claimsJSON("subscribe", []string{"*"}, "who")},
+			hubOp{Op: "api.list", Claims: claimsJSON("subscribe", []string{"*"}, "")})
+	}
+
 	return cs
 }
 
@@ -368,7 +378,7 @@ func runHub(c *h.Ctx, r *h.Report) {
 // genOverflowCase: buffers around the capacity — a stalled subscriber under live load, and replays
 // larger than the buffer.
 func genOverflowCase(rr *h.Rand, capacity int) hubCase {
-	cs := hubCase{ExpectAll: true, Cfg: hubCfg{PubAlg: "HS256", SubAlg: "HS256", Anonymous: true, Bolt: rr.Bool(), Subscriptions: rr.Chance(1, 3)}}
+	cs := hubCase{ExpectAll: true, AllPublic: true, Cfg: hubCfg{PubAlg: "HS256", SubAlg: "HS256", Anonymous: true, Bolt: rr.Bool(), Subscriptions: rr.Chance(1, 3)}}
 	star := claimsJSON("publish", []string{"*"}, "")
 	pubN := func(id string, n int) hubOp {
 		return hubOp{Op: "pub", Form: url.Values{"topic": {"t"}, "id": {id}, "data": {"d"}}, Claims: star, Repeat: n}
@@ -597,12 +607,21 @@ func hubOracles(hr *hubRun, cs hubCase, o *gen.Oracle) []h.Violation {
 				want = lt.stored[idx+1:]
 			}
 			got := lt.replayed()
+			// a connection the hub has ended (replay larger than its buffer) got a gap-free prefix; one that is
+			// still open must have got everything
+			if lt.conn.done.Load() && idx >= 0 && len(got) <= len(want) {
+				want = want[:len(got)]
+			}
 			if idx < 0 || strings.Join(got, "\n") != strings.Join(want, "\n") {
 				add("C08:response-id-equals-requested-but-replay-incomplete", fmt.Sprintf("connection %d requested %q and was answered %q (= nothing lost), but the stored updates after it are %v and %v were replayed", lt.label, lt.req, lt.resp, want, got))
 			}
 		}
 		if lt.req == "earliest" && lt.resp == "earliest" {
-			if got := lt.replayed(); strings.Join(got, "\n") != strings.Join(lt.stored, "\n") {
+			stored := lt.stored
+			if got := lt.replayed(); lt.conn.done.Load() && len(got) <= len(stored) {
+				stored = stored[:len(got)]
+			}
+			if got := lt.replayed(); strings.Join(got, "\n") != strings.Join(stored, "\n") {
 				add("C08:earliest-did-not-replay-whole-history", fmt.Sprintf("connection %d: stored %v, replayed %v", lt.label, lt.stored, got))
 			}
 		}
@@ -678,6 +697,29 @@ func hubOracles(hr *hubRun, cs hubCase, o *gen.Oracle) []h.Violation {
 				}
 				if json.Unmarshal([]byte(e.Data), &d) == nil && d.Type == "Subscription" {
 					seen[key{d.Subscriber, d.Topic, d.Active}]++
+				}
+			}
+			// whoever the subscriber is (also one whose registration failed half-way and that never became a
+			// connection): never more ends than starts, and for a subscriber that is not connected, as many
+			accepted := map[string]bool{}
+			for _, lc := range hr.conns {
+				accepted[sidOf[lc.label]] = true
+			}
+			for k, nTrue := range seen {
+				if !k.active {
+					continue
+				}
+				nFalse := seen[key{k.sid, k.topic, false}]
+				if nFalse > nTrue {
+					add("C17:end-announced-more-often-than-start", fmt.Sprintf("subscriber %s selector %q: a '*' watcher saw %d active=true and %d active=false event(s)", k.sid, k.topic, nTrue, nFalse))
+				}
+				if !accepted[k.sid] && nFalse != nTrue {
+					add("C17:refused-registration-not-announced-symmetrically", fmt.Sprintf("subscriber %s (its registration failed: it never became a connection) selector %q: %d active=true and %d active=false event(s)", k.sid, k.topic, nTrue, nFalse))
+				}
+			}
+			for k, nFalse := range seen {
+				if !k.active && seen[key{k.sid, k.topic, true}] == 0 {
+					add("C17:end-announced-more-often-than-start", fmt.Sprintf("subscriber %s selector %q: %d active=false event(s) and no active=true", k.sid, k.topic, nFalse))
 				}
 			}
 			for _, lc := range hr.conns[1:] {
